@@ -35,16 +35,29 @@ def run(tier):
                 rep.add("R-LEAF", key0 + " direct-impl", "expected exactly one direct impl for the concrete type `%s`, found %s"
                         % (ty_s(t), [ty_s(i["self_ty"]) for i in direct]), where=exp.label())
             else:
-                extra = pred_set(direct[0]["predicates"]["own"])
-                if extra or direct[0]["generics"]["own"]:
-                    rep.add("R-LEAF", key0 + " direct-generic", "impl for the concrete type is generic / conditional: %s" % sorted(extra),
-                            where=exp.label())
+                # the function's own (non-deps) generics are lifted to the trait; nothing else may condition the impl
+                lifted = pred_set(orig["predicates"]["own"])
+                extra = pred_set(direct[0]["predicates"]["own"]) - lifted
+                fn_generics = set(g["name"] for g in orig["generics"]["own"])
+                extra_generics = [g["name"] for g in direct[0]["generics"]["own"] if g["name"] not in fn_generics]
+                if extra or extra_generics:
+                    rep.add("R-LEAF", key0 + " direct-generic", "impl for the concrete type is conditional beyond the function's own generics: %s %s"
+                            % (sorted(extra), extra_generics), where=exp.label())
             if len(nested) != 1 or not is_impl_adt(nested[0]["self_ty"]):
                 rep.add("R-LEAF", key0 + " forward-impl", "expected exactly one forwarding impl for ::entrait::Impl<T>, found %s"
                         % [ty_s(i["self_ty"]) for i in nested], where=exp.label())
             else:
                 actual = pred_set(nested[0]["predicates"]["own"])
-                expected = {"EntraitT: core::marker::Sync", "EntraitT: 'static", "EntraitT: %s" % v.trait["path"]}
+                tnames = [g["name"] for g in v.trait["generics"]["own"] if g["kind"] != "lifetime" and g["name"] != "Self"]
+                expected = {"EntraitT: core::marker::Sync", "EntraitT: 'static",
+                            "EntraitT: %s%s" % (v.trait["path"], "<" + ", ".join(tnames) + ">" if tnames else "")}
+                from ..model import mentions
+                for c in v.trait["predicates"]["own"]:
+                    if c["k"] == "trait" and c["trait"] in ("core::marker::Sized", "core::marker::MetaSized"):
+                        continue
+                    if not mentions(c, lambda n: n.get("t") == "param" and n.get("name") == "Self"):
+                        from ..model import clause_s
+                        expected.add(clause_s(c))
                 rep.count("predicates_compared", len(actual | expected))
                 if actual != expected:
                     rep.add("R-PRED", key0 + " forward-preds", "forwarding impl requires %s, expected exactly %s"
